@@ -416,5 +416,8 @@ func writeReplay(prop, name string, payload map[string]any) string {
 
 // tryReplay: family-specific replay of a counterexample on the real code.
 func tryReplay(prop string, o *Obligation) (bool, map[string]any) {
-	return false, map[string]any{"replayed": false, "reason": "no replay driver for this obligation family yet"}
+	if o.PkgDir == "" || (o.Kind != "post" && o.Kind != "safe") {
+		return false, map[string]any{"replayed": false, "reason": "only postcondition and run-time-check obligations of whole functions carry a model over the function's inputs (loop, frame, assertion and lemma obligations speak about intermediate or quantified states)"}
+	}
+	return replayObligation(o, o.PkgDir)
 }
